@@ -1,6 +1,7 @@
 package vc
 
 import (
+	"path"
 	"fmt"
 	"go/types"
 	"sort"
@@ -49,6 +50,30 @@ func frameAnalysis(E *Engine, ps *PropSpec) []*ExtraResult {
 			replay = "call " + n + " from two goroutines on private arguments: both write the same package-level memory listed above"
 		}
 		out = append(out, &ExtraResult{Name: n + "/frame:no-global-write", Kind: "frame", OK: ok, By: "provenance", Detail: detail, Note: "no-failing-input-found", Replay: replay})
+		// obligation 1b: no pointer into package-level memory is stored into a heap object, except memory declared
+		// `sharedconst` (never written; the declarations are listed as assumptions). Without this, memory loaded from a
+		// parameter could be package-level memory and the classification above would be wrong.
+		for _, ge := range s.GE {
+			okAll := true
+			for _, g := range ge.Globals {
+				allowed := false
+				for _, sc := range E.S.SharedConsts {
+					mg, _ := path.Match(sc.Global, g)
+					mf, _ := path.Match(sc.Func, n)
+					if mg && mf {
+						allowed = true
+					}
+				}
+				if !allowed {
+					okAll = false
+				}
+			}
+			if !okAll {
+				out = append(out, &ExtraResult{Name: n + "/frame:global-escape:" + strings.Join(ge.Globals, "+"), Kind: "frame", OK: false, By: "provenance",
+					Detail: fmt.Sprintf("%s: %s stores a pointer into package-level memory (%s) into a heap object; a later write through that object would be a write to shared memory", shortFile(ge.Pos), ge.Via, strings.Join(ge.Globals, ", ")),
+					Note: "no-failing-input-found", Replay: "two instances built by " + n + " share the package-level memory " + strings.Join(ge.Globals, ", ") + "; a write through one is visible to the other"})
+			}
+		}
 		// obligation 2: no goroutines, channels or unsafe in library code
 		bad := ""
 		for _, b := range fn.Blocks {
@@ -68,6 +93,22 @@ func frameAnalysis(E *Engine, ps *PropSpec) []*ExtraResult {
 		if bad != "" {
 			out = append(out, &ExtraResult{Name: n + "/frame:sequential", Kind: "frame", OK: false, By: "provenance", Detail: "library code uses " + bad, Note: "no-failing-input-found"})
 		}
+	}
+	// summary obligation for 1b
+	nEsc, nBad := 0, 0
+	for _, n := range names {
+		if s := pa.sums[E.P.Funcs[n]]; s != nil {
+			nEsc += len(s.GE)
+		}
+	}
+	for _, x := range out {
+		if strings.Contains(x.Name, "/frame:global-escape:") {
+			nBad++
+		}
+	}
+	if nBad == 0 {
+		out = append(out, &ExtraResult{Name: "frame:global-escapes", Kind: "frame", OK: true, By: "provenance",
+			Detail: fmt.Sprintf("%d stores of a pointer into package-level memory into heap objects, every one of memory declared sharedconst (never written; listed under assumptions)", nEsc)})
 	}
 	// obligation 3: package-level variables that are written anywhere outside initialisers
 	var mut []string
